@@ -8,6 +8,7 @@
   `paging_state_independent`).
 -/
 import DymVerif.Lemmas.IncentExactState
+import DymVerif.Lemmas.IncentBlocks
 namespace DymVerif.Incent
 open DymVerif Coins
 
@@ -236,5 +237,124 @@ theorem blocks_settled : ∀ (ns : List Nat) (s t : State), Inv s → PtrsOKS s 
       obtain ⟨st', b1, b2, b3⟩ := r7 st1 hm1 (by rw [hid1, k2]; exact ha)
       refine ⟨st', by rw [← hid1]; exact b1, ?_, fun i => (b3 i).trans (a3 i)⟩
       rw [b2, a2]
+
+/-! ### the epoch-end flush realises the settled amounts -/
+
+theorem totalRecs_view (l : List Stream) : totalRecs (l.map Stream.view) = (l.map (fun st => st.recs.length)).sum := by
+  unfold totalRecs
+  rw [List.map_map]
+  rfl
+
+theorem totalRecs_for_le (s : State) (e : Nat) :
+    totalRecs ((sortById (activeStreamsFor s e)).map Stream.view) ≤ totalRecs (dataOf s) := by
+  unfold dataOf
+  rw [totalRecs_view, totalRecs_view, sum_sortById, sum_sortById]
+  unfold activeStreamsFor
+  exact sum_sublist_le _ List.filter_sublist
+
+/-- the pointer of the ending epoch stays resumable when the list is restricted to that epoch's streams -/
+theorem ptrsOK_for (s : State) (e : Nat) (hp : PtrsOKS s) :
+    PtrsOKe (fun x => x = e) ((sortById (activeStreamsFor s e)).map Stream.view) s.ptrs := by
+  intro e' he'
+  subst he'
+  rcases hp e' trivial with h | ⟨sv, h1, h2, h3⟩ | h
+  · exact Or.inl h
+  · right; left
+    unfold dataOf at h1
+    obtain ⟨st, hst, hsv⟩ := List.mem_map.1 h1
+    have hst' : st ∈ activeStreams s := (mem_sortById _ st).1 hst
+    have hep : st.epochId = e' := by rw [← hsv] at h3; exact h3
+    have hf : st ∈ activeStreamsFor s e' := by
+      unfold activeStreamsFor
+      exact List.mem_filter.2 ⟨hst', by rw [hep]; exact beq_self_eq_true e'⟩
+    exact ⟨sv, by rw [← hsv]; exact List.mem_map_of_mem (f := Stream.view) ((mem_sortById _ st).2 hf), h2, h3⟩
+  · right; right
+    intro sv hsv
+    obtain ⟨st, hst, he⟩ := List.mem_map.1 hsv
+    have hst' : st ∈ activeStreamsFor s e' := (mem_sortById _ st).1 hst
+    unfold activeStreamsFor at hst'
+    have hst2 : st ∈ activeStreams s := (List.mem_filter.1 hst').1
+    apply h sv
+    unfold dataOf
+    rw [← he]
+    exact List.mem_map_of_mem (f := Stream.view) ((mem_sortById _ st).2 hst2)
+
+/-- **the flush at the epoch end** (`AfterEpochEnd` of epoch `e`, unlimited budget): every active stream of that
+    epoch is stored with its distributed coins equal to the settled amount (and its epoch counted) -/
+theorem flush_settled (s s' : State) (e : Nat) (he : e ≤ 2) (hi : Inv s) (hl : LiveS s) (hp : PtrsOKS s)
+    (hsmall : (s.locks.length + 1) * totalRecs (dataOf s) < maxU64)
+    (h : streamerAfterEpochEnd s e = .ok s') :
+    ∀ st0 ∈ s.streams, st0.id ∈ s.active.ids → st0.epochId = e →
+      ∃ D, getS s'.streams st0.id = some ({ st0 with distributed := D } : Stream).atEpochEnd ∧ ∀ i, amt D i = Settled s st0 i := by
+  intro st0 hm ha hep
+  have hmem := mem_activeStreamsFor s hi.struct e st0 hm ha hep
+  unfold streamerAfterEpochEnd at h
+  have hne : (activeStreamsFor s e).isEmpty = false := by
+    obtain ⟨y, hy, _⟩ := List.mem_map.1 hmem
+    cases hh : activeStreamsFor s e with
+    | nil => rw [hh] at hy; simp at hy
+    | cons a b => rfl
+  rw [hne] at h
+  simp only [Bool.false_eq_true, if_false] at h
+  cases hd : strDistribute s [e] (activeStreamsFor s e) maxU64 true with
+  | error x => simp [hd] at h
+  | ok s1 =>
+    simp only [hd, Except.ok.injEq] at h
+    subst h
+    have hin := activeStreamsFor_good s hi.struct e
+    have hsub : ∀ st ∈ activeStreamsFor s e, st ∈ activeStreams s := by
+      intro st hst; unfold activeStreamsFor at hst; exact (List.mem_filter.1 hst).1
+    have hst : ∀ st ∈ activeStreamsFor s e, StrictInc (st.recs.map (·.gauge)) ∧ st.id < maxU64 := by
+      intro st hm'
+      have hmem' := mem_streamsOf (hsub st hm')
+      exact ⟨hi.stat.recs st hmem', by have := id_le_length hi.struct.sid hmem'; have := hi.len; omega⟩
+    obtain ⟨c, c1, c2, c3, c4, c5, _, _⟩ := strDistribute_core_eq s _ _ _ _ s1 hi.ginv hi.struct hin hst
+      (fun st hm' r hr => hl st (hsub st hm') r hr) (fun x => x = e) (fun st hm' => activeStreamsFor_epoch s e st hm')
+      (ptrsOK_for s e hp) hd
+    obtain ⟨v, hv, hvid⟩ := c2 _ hmem
+    obtain ⟨st1, g0, g1, g2⟩ := c3 v hv
+    have e0 := getS_of_mem hi.struct.sid hm
+    rw [hvid, e0] at g0
+    have : st0 = st1 := Option.some.inj g0
+    subst this
+    have hc1 := c1 v hv
+    rw [hvid] at hc1
+    refine ⟨v.distributed, ?_, ?_⟩
+    · show getS s1.streams st0.id = _
+      rw [hc1]
+      unfold finVal
+      simp only [if_true]
+      rw [← g1]
+    · intro i
+      -- nothing is left to visit after the unlimited pass
+      have hrem := c5 e he rfl rfl (Nat.lt_of_le_of_lt (Nat.mul_le_mul_left _ (totalRecs_for_le s e)) hsmall)
+      have hgc : GoodCache ⟨sortById (activeStreamsFor s e), [], []⟩ := by
+        have hin2 := sortById_good s _ hin
+        refine ⟨hin2.1, sorted_sortById _, ?_, ?_⟩
+        · intro st hm'; exact (hst st ((mem_sortById _ st).1 hm')).1
+        · intro st hm'; exact (hst st ((mem_sortById _ st).1 hm')).2
+      have hsd := hgc.sortedData
+      -- the index of the stream in the iterated list
+      obtain ⟨y, hy, hyid⟩ := List.mem_map.1 hmem
+      have hgy := (hin.2 y hy).1
+      rw [hyid, e0] at hgy
+      have hyeq : y = st0 := (Option.some.inj hgy).symm
+      subst hyeq
+      have hys : y ∈ sortById (activeStreamsFor s e) := (mem_sortById _ y).2 hy
+      obtain ⟨k, hk, hke⟩ := List.getElem_of_mem hys
+      have hkd : k < ((sortById (activeStreamsFor s e)).map Stream.view).length := by simpa using hk
+      have hdk : ((sortById (activeStreamsFor s e)).map Stream.view)[k] = y.view := by simp [hke]
+      have hpk := c4 e rfl
+      have hz : pendId (s1.ptrs.getD e Pointer.last) v i = 0 := by
+        rw [← pendR_eq_pendId _ e _ hsd hpk.ok k hkd v (by rw [hdk, g1]; rfl) (by rw [hdk, g1]; rfl) (by rw [hdk]; exact hep) i]
+        unfold pendR
+        rw [hrem]
+        simp [sharesAt]
+      have := g2 i
+      have hve : v.epochId = e := by rw [g1]; exact hep
+      rw [hve, hz] at this
+      unfold Settled ptrOfEpoch
+      rw [hep] at this ⊢
+      omega
 
 end DymVerif.Incent
